@@ -346,3 +346,13 @@ Example C08_nonvacuous :
   split_on "/"%char (s_ "a=1/b=x/part.0.parquet") = [s_ "a=1"; s_ "b=x"; s_ "part.0.parquet"] /\
   in_range false 64 9223372036854775813 = true.
 Proof. vm_compute. repeat split. Qed.
+
+(* wave 6: the level of a hive partition column is selected BY NAME among the levels of the path (Impl/Partition.row_value; regenerated from
+   core.read_row_group by the unit `rowfill`).  Searching the path text for "<name>=" instead (the class of seeded change C08-10) selects another
+   level as soon as one column name is the tail of another: computed witness fiscal_year / year. *)
+Theorem C08_lookup_by_search_refuted :
+  exists path cat v tail,
+    filter (fun p => match p with k0 :: _ => str_eqb k0 cat | [] => false end) (row_partitions true path) = [cat; v] :: tail /\
+    lookup_by_search cat path <> Some v.
+Proof. exact lookup_by_search_refuted. Qed.
+Print Assumptions C08_lookup_by_search_refuted.
